@@ -315,6 +315,7 @@ type scriptStep struct {
 	name  string // link name (x = 75: link request; x = 50 with a name: publish through the link)
 	sub   bool   // link request: subscribe as well
 	will  string // connect step: last will on this channel (with keys[key]); "" = random
+	skip  bool   // first step of a connection: no CONNECT is sent at all (the broker does not require one)
 	pres  int    // presence request: 0 = status only, 1 = status:false changes:true, 2 = status:false changes:false, 3 = status:true changes:false
 }
 
@@ -386,13 +387,14 @@ func history(lic license.License, mqttMode bool, nClients, steps int, script []s
 	}
 	w.pending = make([][]mqtt.Message, nClients)
 
-	channels := []string{"a/", "a/b/", "b/a/", "a/a/", "b/b/", "a/b/c/", "b/", "x/x/y/", "y/", "a/+/", "a/#/", "+/b/", "#/", "a//b/", "a/b", "a b/", "", "a/?ttl=300", "a/b/?last=2", "a/b/?last=0", "a/?me=0", "a/b/c/?ttl=200&me=0", "presence/", "presence/a/", "a/presence/"}
-	staticChannels := []string{"a/", "a/b/", "b/a/", "a/a/", "b/b/", "a/b/c/", "b/", "x/x/y/", "y/", "a/b/?ttl=500", "a/?me=0", "a/b/c/?ttl=200&me=0", "a/?ttl=100", "a/b/?me=1", "a/b/?ttl=2592001", "b/?ttl=31536000", "a/?ttl=2592000", "a/?ttl=0", "a/b/?ttl=0&me=0", "presence/", "presence/a/", "a/presence/"}
+	channels := []string{"a/", "a/b/", "b/a/", "a/a/", "b/b/", "a/b/c/", "b/", "x/x/y/", "y/", "a/+/", "a/#/", "+/b/", "#/", "a//b/", "a/b", "a b/", "", "a/?ttl=300", "a/b/?last=2", "a/b/?last=0", "a/?me=0", "a/b/c/?ttl=200&me=0", "presence/", "presence/a/", "a/presence/", "y/x/x/", "a/b/?last=2147483648", "a/?last=9223372036854775807", "a/b/?last=4294967296"}
+	staticChannels := []string{"a/", "a/b/", "b/a/", "a/a/", "b/b/", "a/b/c/", "b/", "x/x/y/", "y/", "a/b/?ttl=500", "a/?me=0", "a/b/c/?ttl=200&me=0", "a/?ttl=100", "a/b/?me=1", "a/b/?ttl=2592001", "b/?ttl=31536000", "a/?ttl=2592000", "a/?ttl=0", "a/b/?ttl=0&me=0", "presence/", "presence/a/", "a/presence/", "y/x/x/"}
 	usernames := []string{"", "alice", "bob", "", "carol"}
 
 	var ops []string
 	kinds := map[string]int{}
 	connected := make([]bool, nClients)
+	everConnected := make([]bool, nClients)
 	nextMid := func(cl *client) uint16 { cl.mid++; return cl.mid }
 	type held struct{ topic string }
 	heldBy := make([][]string, nClients)
@@ -420,14 +422,20 @@ func history(lic license.License, mqttMode bool, nClients, steps int, script []s
 				w.clients[ci] = cl
 				w.guids[cl.guid] = ci
 				connected[ci] = false
+				everConnected[ci] = false
 				heldBy[ci] = nil
 				step(ci, vlib.App("OReopen", vlib.N(uint64(hash.OfString(cl.guid)))), "reopen")
 			}
 			continue
 		}
+		if !connected[ci] && !everConnected[ci] && ((sc == nil && r.Intn(6) == 0) || (sc != nil && sc.skip)) {
+			connected[ci] = true // a session without CONNECT
+			everConnected[ci] = true
+		}
 		if !connected[ci] {
+			everConnected[ci] = true
 			user := usernames[r.Intn(len(usernames))]
-			con := &mqtt.Connect{ClientID: []byte(fmt.Sprintf("c%d", ci)), Username: []byte(user), UsernameFlag: user != ""}
+			con := &mqtt.Connect{ClientID: []byte(fmt.Sprintf("c%d", ci)), Username: []byte(user), UsernameFlag: user != "", CleanSeshFlag: sc != nil || r.Intn(2) == 0}
 			willTerm := "None"
 			if r.Intn(3) == 0 || (sc != nil && sc.will != "") {
 				k := keys[r.Intn(len(keys))]
@@ -524,6 +532,9 @@ func history(lic license.License, mqttMode bool, nClients, steps int, script []s
 			}
 			mid := nextMid(cl)
 			payload := []byte(fmt.Sprintf("m%d-%d", ci, s))
+			if r.Intn(8) == 0 || (sc != nil && sc.how == 7) {
+				payload = nil
+			}
 			retain := r.Intn(5) == 0
 			if sc != nil {
 				retain = sc.sub
@@ -548,7 +559,7 @@ func history(lic license.License, mqttMode bool, nClients, steps int, script []s
 			step(ci, vlib.App("OLink", vlib.N(uint64(mid)), vlib.Str(name), vlib.Str(k.str), vlib.Str(ch), vlib.Bool(sub)), "link")
 		case x < 84: // history request (the key travels inside the channel text)
 			k := keys[r.Intn(len(keys))]
-			ch := vlib.Pick2(r, "a/", "a/b/", "a/b/?last=3", "a/b/c/?last=100", "a/?last=0", "b/", "a/+/?last=5", "a/b/?from=1&last=9", "a b/", "a/b")
+			ch := vlib.Pick2(r, "a/", "a/b/", "a/b/?last=3", "a/b/c/?last=100", "a/?last=0", "a/b/?last=2147483648", "a/?last=9223372036854775807", "b/", "a/+/?last=5", "a/b/?from=1&last=9", "a b/", "a/b")
 			if sc != nil {
 				k, ch = keys[sc.key], sc.topic
 			}
@@ -590,6 +601,9 @@ func history(lic license.License, mqttMode bool, nClients, steps int, script []s
 			got, _ := cl.waitFor(isType(mqtt.TypeOfPuback))
 			w.pending[ci] = append(w.pending[ci], got...)
 			step(ci, vlib.App("OPresence", vlib.N(uint64(mid)), vlib.Str(k.str), vlib.Str(ch), vlib.Bool(status), vlib.N(uint64(changes))), "presence")
+		case x < 93: // the next request of this connection is another CONNECT
+			connected[ci] = false
+			continue
 		case x < 95: // ping
 			cl.send(&mqtt.Pingreq{})
 			got, _ := cl.waitFor(isType(mqtt.TypeOfPingresp))
@@ -756,7 +770,7 @@ func main() {
 	}
 	// directed scenarios: two filters of one connection whose bookkeeping keys collide, every order
 	// of subscribing and of removing them (by UNSUBSCRIBE or by the connection ending in four ways)
-	pairs := [][2]string{{"a/b/", "b/a/"}, {"x/x/y/", "y/"}, {"a/a/", "b/b/"}}
+	pairs := [][2]string{{"a/b/", "b/a/"}, {"x/x/y/", "y/"}, {"a/a/", "b/b/"}, {"y/", "y/x/x/"}}
 	k := 0
 	for _, pr := range pairs {
 		for so := 0; so < 2; so++ {
@@ -839,9 +853,25 @@ func main() {
 		t, h := history(lics[v%3], false, 2, 0, sc)
 		sh.Add(t, h, "scenario/presence-cancel-and-presence-word", true)
 	}
+	// directed scenarios: a second CONNECT on a connection that holds subscriptions and a link; a
+	// session that never sends CONNECT; retained publishes without payload; very large 'last' values
+	for v := 0; v < 4; v++ {
+		pubs := []scriptStep{{ci: 1, x: 50, topic: "a/b/"}, {ci: 1, x: 85, topic: "a/b/"}}
+		sc := []scriptStep{{ci: 0, skip: v%2 == 1}, {ci: 1}, {ci: 1, x: 85, topic: "a/b/", pres: 1}, {ci: 0, x: 0, topic: "a/b/"}, {ci: 0, x: 75, name: "l1", topic: "a/b/c/"},
+			{ci: 0, x: 92}, {ci: 0}}
+		sc = append(sc, pubs...)
+		sc = append(sc, scriptStep{ci: 0, x: 50, name: "l1"}, scriptStep{ci: 0, x: 30, topic: "a/b/"})
+		sc = append(sc, pubs...)
+		sc = append(sc, scriptStep{ci: 1, x: 50, topic: "a/b/", sub: true, how: 7}, scriptStep{ci: 1, x: 50, topic: "a/b/", sub: true}, scriptStep{ci: 1, x: 50, topic: "a/b/", sub: true, how: 7},
+			scriptStep{ci: 0, x: 0, topic: "a/b/?last=2147483648"}, scriptStep{ci: 0, x: 83, topic: "a/b/?last=9223372036854775807"}, scriptStep{ci: 0, x: 0, topic: "a/b/"},
+			scriptStep{ci: 0, x: 99, how: v})
+		sc = append(sc, pubs...)
+		t, h := history(lics[v%3], false, 2, 0, sc)
+		sh.Add(t, h, "scenario/reconnect-noconnect-empty-retained-big-last", true)
+	}
 	for _, n := range []int{150, 260} {
 		t, h := burst(lics[n%3], n)
 		sh.Add(t, h, "scenario/presence-burst", true)
 	}
-	sh.Finish("sessions of 2-4 clients (connect with/without username and last will, subscribe, unsubscribe, publish with retain / ttl / me=0 / links, link, presence and history requests, ping, four ways of ending incl. a packet on which the decoder panics, reconnects; directed scenarios for filters whose bookkeeping keys collide; stored messages replayed to first, repeated and re-made subscriptions; presence watcher that stops reading during a burst of 150 / 260 subscriptions) over channels a/ a/b/ b/a/ a/a/ b/b/ a/b/c/ b/ x/x/y/ y/ with wildcards and options, nine keys (targets #/ a/#/ a/b/ b/#/, masks incl. read-only, write-only, extendable, expired, no-load), emitter and mqtt matcher; every request acknowledged before the next; presence notifications flushed by a FIFO barrier; non-trivial: all")
+	sh.Finish("sessions of 2-4 clients (connect with/without username and last will, sessions without CONNECT, repeated CONNECT, subscribe, unsubscribe, publish with retain / ttl / me=0 / links, link, presence and history requests, ping, four ways of ending incl. a packet on which the decoder panics, reconnects; directed scenarios for filters whose bookkeeping keys collide; stored messages replayed to first, repeated and re-made subscriptions; presence watcher that stops reading during a burst of 150 / 260 subscriptions) over channels a/ a/b/ b/a/ a/a/ b/b/ a/b/c/ b/ x/x/y/ y/ with wildcards and options, nine keys (targets #/ a/#/ a/b/ b/#/, masks incl. read-only, write-only, extendable, expired, no-load), emitter and mqtt matcher; every request acknowledged before the next; presence notifications flushed by a FIFO barrier; non-trivial: all")
 }
